@@ -28,6 +28,7 @@ import M4riProofs.GenTieSolve
 import M4riProofs.GenTiePleFinal
 import M4riProofs.GenTieGlue
 import M4riProofs.GenTieClose4
+import M4riProofs.GenTieTop
 namespace M4ri.Props.C06
 open M4ri M4ri.BMat
 
@@ -111,3 +112,17 @@ theorem solve_left_end_to_end (L1 L2 L3 : Nat) {A B : BMat} (hA : A.WF) (hB : B.
 #check @M4ri.GenTieClose4.cPleFull_spec
 
 end M4ri.Props.C06
+
+/-! ### END TO END ON THE C TEXT (GenTieTop.lean): the generated `_mzd_solve_left` with `_mzd_pluq` bound to the generated `_mzd_pluq` over the WHOLE
+    generated `_mzd_ple` closed at any depth (`cPluq … n`), and `_mzd_pluq_solve_left` bound to the generated one (TRSM callees lifted, or — `_closed` —
+    bound to the closed generated recursions `cTrsmLL` / `cTrsmUL`): the verdict is 0 iff the padded system is solvable, and then the first `ncols`
+    rows of the returned memory solve it; for every `GoodBase` base case (instance: the library's `_mzd_ple_russian` model, `c_solve_left_russian`).
+    The congruence lemmas show that each generated consumer reads P, Q only on their index ranges. -/
+#check @M4ri.GenTieTop.c_pluq
+#check @M4ri.GenTieTop.c_solve_left
+#check @M4ri.GenTieTop.c_solve_left_eq
+#check @M4ri.GenTieTop.c_solve_left_closed
+#check @M4ri.GenTieTop.c_solve_left_russian
+#check @M4ri.GenTieTop.solveLeftTop_congr
+#check @M4ri.GenTieTop.pluqSolveLeft_closed
+#check @M4ri.GenTieTop.extra_needed
